@@ -57,6 +57,7 @@ type c13rG struct {
 type c13rCase struct {
 	R     int     `json:"r"`     // <0 NewConsistentHash(), else NewCustomConsistentHash(R, nil)
 	Nodes int     `json:"nodes"` // 1..3
+	Kinds []int   `json:"kinds"` // Go type per node: 0 string, 1 struct with a slice field (not comparable), 2 int, 3 []byte, 4 *struct
 	Pre   []int   `json:"pre"`   // nodes added (full weight) before the barrier opens
 	Gs    []c13rG `json:"gs"`
 	Reps  int     `json:"reps"`
@@ -76,6 +77,63 @@ func (k c13rSlowKey) String() string {
 
 func c13rName(i int) string { return "10.0.0." + strconv.Itoa(11+i) + ":6379" }
 
+type c13rTagged struct {
+	Addr string
+	Tags []string
+}
+
+type c13rPtr struct{ Addr string }
+
+// c13rNode: the node value of node i (identity = its repr, whatever the Go type).
+func c13rNode(c c13rCase, i int) any {
+	k := 0
+	if i < len(c.Kinds) {
+		k = c.Kinds[i]
+	}
+	switch k {
+	case 1:
+		return c13rTagged{Addr: c13rName(i), Tags: []string{"x"}}
+	case 2:
+		return 6379 + i
+	case 3:
+		return []byte(c13rName(i))
+	case 4:
+		return &c13rPtr{Addr: c13rName(i)}
+	}
+	return c13rName(i)
+}
+
+// c13rIndex maps a value returned by Get back to the node index (-1: unknown).
+func c13rIndex(c c13rCase, x any) int {
+	name := ""
+	switch n := x.(type) {
+	case string:
+		name = n
+	case c13rTagged:
+		name = n.Addr
+	case int:
+		if n >= 6379 && n < 6379+c.Nodes {
+			return n - 6379
+		}
+		return -1
+	case []byte:
+		name = string(n)
+	case *c13rPtr:
+		if n == nil {
+			return -1
+		}
+		name = n.Addr
+	default:
+		return -1
+	}
+	for i := 0; i < c.Nodes; i++ {
+		if c13rName(i) == name {
+			return i
+		}
+	}
+	return -1
+}
+
 func c13rKey(seed, i, spin int) any {
 	switch i % 3 {
 	case 0:
@@ -94,16 +152,17 @@ func c13rNew(c c13rCase) *ConsistentHash {
 	return NewCustomConsistentHash(c.R, nil)
 }
 
-func c13rApply(h *ConsistentHash, o c13rOp) {
+func c13rApply(c c13rCase, h *ConsistentHash, o c13rOp) {
+	node := c13rNode(c, o.N)
 	switch o.K {
 	case "add":
-		h.Add(c13rName(o.N))
+		h.Add(node)
 	case "addw":
-		h.AddWithWeight(c13rName(o.N), o.W)
+		h.AddWithWeight(node, o.W)
 	case "addr":
-		h.AddWithReplicas(c13rName(o.N), o.W)
+		h.AddWithReplicas(node, o.W)
 	case "rm":
-		h.Remove(c13rName(o.N))
+		h.Remove(node)
 	}
 }
 
@@ -156,7 +215,7 @@ func c13rOnce(c c13rCase, classes map[string]bool) (fail string) {
 	var seq atomic.Int64
 	events := make([][]c13rEvent, c.Nodes) // per node, in program order of its owner
 	for _, n := range c.Pre {
-		h.Add(c13rName(n))
+		h.Add(c13rNode(c, n))
 		events[n] = append(events[n], c13rEvent{s0: 0, s1: 0, visible: true, op: c13rOp{K: "add", N: n}})
 	}
 	gets := make([][]c13rGet, len(c.Gs))
@@ -191,7 +250,7 @@ func c13rOnce(c c13rCase, classes map[string]bool) (fail string) {
 			}
 			for _, o := range g.Ops {
 				s0 := seq.Add(1)
-				c13rApply(h, o)
+				c13rApply(c, h, o)
 				s1 := seq.Add(1)
 				mu.Lock()
 				events[o.N] = append(events[o.N], c13rEvent{s0: s0, s1: s1, visible: c13rVnodes(o, effR) > 0, op: o})
@@ -232,17 +291,13 @@ func c13rOnce(c c13rCase, classes map[string]bool) (fail string) {
 		}
 	}
 	sort.Slice(definite, func(a, b int) bool { return definite[a].lo < definite[b].lo })
-	names := map[string]int{}
-	for i := 0; i < c.Nodes; i++ {
-		names[c13rName(i)] = i
-	}
 	emptySeen, lastRemoved := false, false
 	for gi, gs := range gets {
 		for _, g := range gs {
 			if g.ok {
-				s, isStr := g.node.(string)
-				n, known := names[s]
-				if !isStr || !known {
+				n := c13rIndex(c, g.node)
+				s := c13rName(n)
+				if n < 0 {
 					return fmt.Sprintf("getter %d: Get(%v) returned (%v, true): not a node of this history", gi, g.key, g.node)
 				}
 				okv := false
@@ -293,7 +348,7 @@ func c13rOnce(c c13rCase, classes map[string]bool) (fail string) {
 			}
 		}
 		if last.op.K != "rm" {
-			c13rApply(fresh, last.op)
+			c13rApply(c, fresh, last.op)
 			want += c13rVnodes(last.op, effR)
 			members++
 		}
@@ -313,7 +368,7 @@ func c13rOnce(c c13rCase, classes map[string]bool) (fail string) {
 		key := c13rKey(7, i, 0)
 		a, aok := h.Get(key)
 		b, bok := fresh.Get(key)
-		if aok != bok || a != b {
+		if aok != bok || c13rIndex(c, a) != c13rIndex(c, b) {
 			return fmt.Sprintf("after all goroutines finished: Get(%v) = (%v,%v), a fresh ring with the final membership gives (%v,%v)", key, a, aok, b, bok)
 		}
 	}
@@ -363,6 +418,9 @@ func c13rGen(rt *rapid.T) c13rCase {
 		c.R = rapid.IntRange(100, 200).Draw(rt, "r")
 	}
 	c.Nodes = rapid.SampledFrom([]int{1, 1, 2, 2, 3}).Draw(rt, "nodes")
+	for n := 0; n < c.Nodes; n++ {
+		c.Kinds = append(c.Kinds, int(rapid.Uint64().Draw(rt, "kind")%5))
+	}
 	for n := 0; n < c.Nodes; n++ {
 		if rapid.Bool().Draw(rt, "pre") {
 			c.Pre = append(c.Pre, n)
